@@ -245,13 +245,20 @@ func (c *Client) SendRaw(b []byte) error {
 	c.logf("> %d bytes %x", len(b), trunc(b, 48))
 	c.C.SetWriteDeadline(time.Now().Add(30 * time.Second))
 	if c.Chunk > 0 {
-		for i := 0; i < len(b); i += c.Chunk {
-			e := min(i+c.Chunk, len(b))
+		// the command and the beginning of what follows go out in small pieces; a long payload tail is
+		// sent in larger pieces (the point is to split headers and paths, not to make 200 k syscalls)
+		for i := 0; i < len(b); {
+			step := c.Chunk
+			if i >= 16+4096 && step < 4096 {
+				step = 4096
+			}
+			e := min(i+step, len(b))
 			n, err := c.C.Write(b[i:e])
 			c.Sent += int64(n)
 			if err != nil {
 				return err
 			}
+			i = e
 		}
 		return nil
 	}
